@@ -141,6 +141,12 @@ class LoopMixin(object):
                 # a collection created by a helper the body called: it
                 # belongs to this iteration
                 return True
+            if t[0] == "comp" and len(t) >= 6 and isinstance(t[5], tuple) and (
+                    (t[5][0] == path and lo < t[5][1] <= hi) or any(
+                        t[5][0] == rp and rlo <= t[5][1] <= rhi
+                        for (rp, rlo, rhi) in callee_ranges)):
+                # a comprehension evaluated during this iteration
+                return True
             if t[0] == "elem" and len(t) > 2 and t[2] == loopid:
                 return True
             if t[0] == "loopvar" and t[1] == loopid:
